@@ -208,3 +208,36 @@ def c17_pre(tier):
             re.search(r'ifeq \(\$\(%s\),ON\)\s*\nCPPFLAGS \+= -D%s' % (o, o), mk)]
     res.append(('makefile-defaults-off', len(offs) == 3, 'options defaulting to OFF and enabled only by =ON: %s' % offs))
     return res
+
+
+def c14_pre(tier):
+    """S1: static-lifetime mutable objects defined by the library units (symbol scan of a gcc -c build)."""
+    import glob
+    res = []
+    R = core.REPO
+    w = tempfile.mkdtemp(prefix='vf-nm-', dir='/var/tmp')
+    found = []
+    try:
+        units = sorted(glob.glob(R + '/src/*.c') + glob.glob(R + '/partial/idn2/*.c'))
+        for u in units:
+            o = os.path.join(w, 'u.o')
+            p = subprocess.run(['gcc', '-O0', '-c', u, '-o', o, '-I' + R + '/include', '-I' + R, '-D_DEFAULT_SOURCE',
+                                '-D_XOPEN_SOURCE=700', '-D_SVID_SOURCE', '-DHAVE_LIBIDN2', '-w', '-fno-pic', '-fno-pie'], stdout=subprocess.PIPE, stderr=subprocess.STDOUT)
+            if p.returncode != 0:
+                res.append(('compile-' + os.path.basename(u), False, p.stdout.decode()[-300:]))
+                continue
+            nm = subprocess.run(['nm', o], stdout=subprocess.PIPE).stdout.decode()
+            for line in nm.splitlines():
+                parts = line.split()
+                if len(parts) >= 3 and parts[1] in 'bBdDcCsSgG':
+                    found.append('%s:%s(%s)' % (os.path.relpath(u, R), parts[2], parts[1]))
+        local = [f for f in found if re.search(r'\.\d+\(', f)]
+        filescope = [f for f in found if f not in local]
+        res.append(('S1-no-function-local-mutable-static', not local,
+                    'function-local writable statics (shared by all threads, invisible to the contract check): %s' % local if local else
+                    '%d library units define no function-local writable static' % len(units)))
+        res.append(('S1-file-scope-writable-objects-listed', True,
+                    'file-scope writable objects (any write to them is refuted by the S2 contract queries): %s' % (filescope or 'none')))
+    finally:
+        shutil.rmtree(w, ignore_errors=True)
+    return res
